@@ -226,8 +226,12 @@ def _scalar_num(kind, coef, exp):
         want = Decimal(repr(x))  # the decimal value a float denotes when written out (shortest repr)
     elif kind == 2:
         x = Decimal(coef).scaleb(exp); want = x
-    else:
+    elif kind == 3:
         x = "%de%d" % (coef, exp); want = Decimal(x)
+    else:
+        # computed floats: their shortest repr has up to 17 significant digits, all of which are the value
+        x = (coef / 3.0, coef / 7.0, 0.1 * coef + 0.2, coef * 3.141592653589793, (coef + 0.1) / 9.0, 1e-9 * coef / 7.0, 1e6 * coef / 11.0)[exp % 7] * (10.0 ** (exp // 3))
+        want = Decimal(repr(x))
     r = h.scalar.to_scalar(x)
     if not isinstance(r, Prefixed):
         return _fail(f"{x!r} became {r!r}")
@@ -274,13 +278,13 @@ def scalar_strings(c0, c1, c2):
         return _scalar_str(cs)
 
 
-@harness("C13", args="kind: int, coef: int, exp: int", pre=["0 <= kind <= 3", "-50 <= coef <= 120", "-6 <= exp <= 6"],
-         tiers={"quick": {"timeout": 170, "pre": ["coef % 3 == 1 or coef == 0 or coef == -50"], "parts": parts_over("kind", range(4))},
-                "thorough": {"timeout": 900, "parts": parts_over("kind", range(4))}}, sample=(1, 1, -1),
-         bounds="Scalar conversion of ints, floats (coef/10^k incl. non-terminating binary fractions; oracle = the decimal value of the float's shortest repr), Decimals and 'NeM' strings, directly and through a Scalar-typed primitive parameter",
+@harness("C13", args="kind: int, coef: int, exp: int", pre=["0 <= kind <= 4", "-50 <= coef <= 120", "-6 <= exp <= 6"],
+         tiers={"quick": {"timeout": 170, "pre": ["coef % 3 == 1 or coef == 0 or coef == -50"], "parts": parts_over("kind", range(5))},
+                "thorough": {"timeout": 600, "parts": parts_over("kind", range(5))}}, sample=(1, 1, -1),
+         bounds="Scalar conversion of ints, floats (coef/10^k, and computed floats - thirds, sevenths, multiples of pi, 0.1*k+0.2 - whose shortest repr carries 16-17 significant digits; oracle = the decimal value of the float's shortest repr), Decimals and 'NeM' strings, directly and through a Scalar-typed primitive parameter",
          generalises="nothing beyond the box", outside="")
 def scalar_numbers(kind, coef, exp):
     P = env.pick
-    kind, coef, exp = P(kind, 0, 3), P(coef, -50, 120), P(exp, -6, 6)
+    kind, coef, exp = P(kind, 0, 4), P(coef, -50, 120), P(exp, -6, 6)
     with env.notrace():
         return _scalar_num(kind, coef, exp)
